@@ -36,15 +36,6 @@ class RemoveLiteralStatements(SuiteTransformer):
             return node
         return self.visit(node)
 
-    def visit_Module(self, node):
-        for binding in node.bindings:
-            if binding.name == '__doc__':
-                node.body = [self.visit(a) for a in node.body]
-                return node
-
-        node.body = self.suite(node.body, parent=node)
-        return node
-
     def is_literal_statement(self, node):
         if not isinstance(node, ast.Expr):
             return False
